@@ -15,6 +15,9 @@ skips = {
         "C04/m1": "manifests only for a target exponent of MaxInt32, outside the package limits (out of the property's domain)",
         "C17/m1": "manifests only for Exponent == MinInt32, outside the package limits (out of the property's domain)"},
     "-r3": {},
+    "-r5": {"C01/m1": "not confirmed: with the patch one stable baseline test (TestGDA/base/emax314) is skipped by the harness ('exponent out of range') instead of passed; the off-by-one at adjusted exponent == MaxExponent was detected by C04.R6 when tried",
+            "C09/m1": "not confirmed: same off-by-one (exponent sum == MaxExponent), same stable test skipped instead of passed; detected by C04.R6/C13.R5 when tried",
+            "C13/m1": "not confirmed: with the patch four stable baseline tests are skipped instead of passed; the use of the unresolved digit count was detected by C07.R8 when tried"},
     "-r4": {"C05/m2": "obsolete: it moved QuoInteger's sign computation after the destination writes, which changed the result only through the sign stamped on the DivisionImpossible NaN (d.Set(decimalNaN) had cleared an aliased x.Negative); after the fix 'QuoInteger's DivisionImpossible result is NaN, not -NaN' that path returns before the sign is read and the change is behaviour-preserving (kept as the benign variant benign_agent5_C05_m2_r4; it was detected by C05.R1 while it broke the property)",
             "C11/m2": "obsolete: it mutated the exactness test of the old Cbrt tail; ported to the rewritten Cbrt (fix 'Cbrt is correctly rounded in every rounding mode') the same slip fails 9 tests of the pinned suite, so it is no longer a surviving mutant (it was detected by C11.R2 while it applied)",
             "C20/m2": "not confirmed on the tree as repaired in between: with the patch one stable baseline test no longer completes (it was detected by C04.R6 when tried)"},
